@@ -26,6 +26,11 @@ type LossCase struct {
 	// Same (C12): the prediction tensor object is passed as the target as well (T repeats the
 	// prediction values)
 	Same bool `json:"same,omitempty"`
+	// Other: a second loss object of another kind is in use (newLossWithOther)
+	Other int `json:"other,omitempty"`
+	// ShareT (C13): both rounds pass the same (untracked) target tensor object; the first round's
+	// back-propagation lies between its two uses
+	ShareT bool `json:"share_t,omitempty"`
 }
 
 func init() {
@@ -36,6 +41,52 @@ func init() {
 // newLoss constructs one loss object; histories keep using the same object for every step,
 // as a training loop does (state leaking from one Compute into the next must show).
 func newLoss(kind string) func(p, t tensor.Tensor) (tensor.Tensor, error) {
+	return newLossWithOther(kind, 0)
+}
+
+// newLossWithOther: with other == 1 / 2 loss objects of the two other kinds are constructed
+// before / after the returned one and evaluate (and back-propagate) a batch of their own right
+// before every Compute of the returned object.
+func newLossWithOther(kind string, other int) func(p, t tensor.Tensor) (tensor.Tensor, error) {
+	var okinds []string
+	for _, k := range []string{"ce", "mse", "bce"} {
+		if k != kind {
+			okinds = append(okinds, k)
+		}
+	}
+	var os []func(p, t tensor.Tensor) (tensor.Tensor, error)
+	mkOthers := func() {
+		for _, k := range okinds {
+			os = append(os, newLoss1(k))
+		}
+	}
+	if other == 1 {
+		mkOthers()
+	}
+	main := newLoss1(kind)
+	if other == 2 {
+		mkOthers()
+	}
+	if len(os) == 0 {
+		return main
+	}
+	return func(p, t tensor.Tensor) (tensor.Tensor, error) {
+		for i, o := range os {
+			shape := []int{4}
+			if okinds[i] == "ce" {
+				shape = []int{2, 2}
+			}
+			op := lib.MustNew(shape, []float64{0.3, 0.9, 0, 1.5}, true)
+			ot := lib.MustNew(shape, []float64{1, 0.25, 0, 1}, false)
+			if l, err := o(op, ot); err == nil && l != nil {
+				_ = tensor.BackPropagate(l)
+			}
+		}
+		return main(p, t)
+	}
+}
+
+func newLoss1(kind string) func(p, t tensor.Tensor) (tensor.Tensor, error) {
 	switch kind {
 	case "mse":
 		return losses.NewMSE().Compute
@@ -138,11 +189,15 @@ func genC12(t *rapid.T) LossCase {
 	s := lossShape(t, kind)
 	p, _ := drawProb(t, ref.Prod(s), "p", true)
 	tg, _ := drawProb(t, ref.Prod(s), "t", true)
+	other := 0
+	if rapid.IntRange(0, 2).Draw(t, "otherobject") == 0 {
+		other = rapid.IntRange(1, 2).Draw(t, "otherwhen")
+	}
 	same := rapid.IntRange(0, 7).Draw(t, "sameobject") == 0
 	if same {
 		tg = append([]float64{}, p...)
 	}
-	return LossCase{Kind: kind, Up: prog.Program{Leaves: []prog.Leaf{{Shape: s, Vals: p, Tracked: rapid.Bool().Draw(t, "ptracked")}}}, T: tg, TTr: rapid.Bool().Draw(t, "ttracked"), Same: same}
+	return LossCase{Kind: kind, Up: prog.Program{Leaves: []prog.Leaf{{Shape: s, Vals: p, Tracked: rapid.Bool().Draw(t, "ptracked")}}}, T: tg, TTr: rapid.Bool().Draw(t, "ttracked"), Same: same, Other: other}
 }
 
 func checkC12(c LossCase) *Failure {
@@ -160,7 +215,7 @@ func checkC12(c LossCase) *Failure {
 	// scale: the same formula on term magnitudes (|log| of clipped values are <= 27.7)
 	scale := math.Abs(want.V) + 1e-12
 	vals := []float64{}
-	compute := newLoss(c.Kind)
+	compute := newLossWithOther(c.Kind, c.Other)
 	// the same loss object first serves a larger and a smaller batch (a training loop's full
 	// batches and short last batch); both are checked against the definition as well
 	for _, rep := range []int{3, 0} {
@@ -230,6 +285,9 @@ func checkC12(c LossCase) *Failure {
 	}
 	evid.Eval()
 	evid.Class("C12.kind=" + c.Kind)
+	if c.Other > 0 {
+		evid.Class("C12.second_loss_object_in_use")
+	}
 	clipped, interior, near := false, false, false
 	for _, v := range pl.Vals {
 		switch {
@@ -275,6 +333,10 @@ func genC13(t *rapid.T) LossCase {
 	}
 	n := ref.Prod(s)
 	c := LossCase{Kind: kind}
+	c.ShareT = rapid.Bool().Draw(t, "sharetarget")
+	if rapid.IntRange(0, 2).Draw(t, "otherobject") == 0 {
+		c.Other = rapid.IntRange(1, 2).Draw(t, "otherwhen")
+	}
 	tg, _ := drawProb(t, n, "t", false)
 	for i := range tg { // targets in [0,1]
 		if tg[i] < 0 || tg[i] > 1 {
@@ -303,7 +365,7 @@ func genC13(t *rapid.T) LossCase {
 		return c
 	}
 	// upstream program: smooth shape-preserving ops over leaves in (0,1)
-	cfg := prog.DefaultCfg([]string{"scale", "mul", "add", "sub", "tanh", "sin", "pow", "elmax", "elmin", "mul", "scale"})
+	cfg := prog.DefaultCfg([]string{"scale", "mul", "add", "sub", "tanh", "sin", "pow", "elmax", "elmin", "mul", "scale", "flatten", "flatten", "reshape"})
 	cfg.MaxElems = 2100
 	g := prog.NewGen(t, cfg)
 	nl := rapid.IntRange(1, 3).Draw(t, "nleaves")
@@ -408,25 +470,32 @@ func checkC13(c LossCase) *Failure {
 		evid.Discard("prediction_at_clipping_bound")
 		return nil
 	}
-	compute := newLoss(c.Kind)
+	compute := newLossWithOther(c.Kind, c.Other)
 	clippedSeen := false
 	// the same loss object serves two independent rounds (fresh tensors each), as in a loop
+	var sharedT tensor.Tensor
+	if c.ShareT {
+		sharedT = lib.MustNew(p.Shape, c.T, false)
+	}
 	for round := 0; round < 2; round++ {
-		if f := c13Round(c, compute, round, vals, slot, reach, L, p, &clippedSeen); f != nil {
+		if f := c13Round(c, compute, round, vals, slot, reach, L, p, &clippedSeen, sharedT); f != nil {
 			return f
 		}
 	}
 	return c13Classify(c, tr, pid, clippedSeen)
 }
 
-func c13Round(c LossCase, compute func(p, t tensor.Tensor) (tensor.Tensor, error), round int, vals []ref.T, slot []int, reach []bool, L ref.D, p ref.T, clippedSeenOut *bool) *Failure {
+func c13Round(c LossCase, compute func(p, t tensor.Tensor) (tensor.Tensor, error), round int, vals []ref.T, slot []int, reach []bool, L ref.D, p ref.T, clippedSeenOut *bool, sharedT tensor.Tensor) *Failure {
 	total := len(vals)
 	pid := total - 1
 	lv, err := prog.RunLib(c.Up)
 	if err != nil {
 		return failf("upstream program rejected: %v", err)
 	}
-	tg := lib.MustNew(p.Shape, c.T, false)
+	tg := sharedT
+	if tg == nil {
+		tg = lib.MustNew(p.Shape, c.T, false)
+	}
 	if round == 1 {
 		// between the rounds: a valid call on a smaller batch, then calls that are rejected
 		// although they involve the tensors of the valid call that follows
@@ -540,6 +609,12 @@ func c13Round(c LossCase, compute func(p, t tensor.Tensor) (tensor.Tensor, error
 func c13Classify(c LossCase, tr []bool, pid int, clippedSeen bool) *Failure {
 	evid.Eval()
 	evid.Class("C13.kind=" + c.Kind)
+	if c.Other > 0 {
+		evid.Class("C13.second_loss_object_in_use")
+	}
+	if c.ShareT {
+		evid.Class("C13.target_object_shared_by_both_rounds")
+	}
 	nt := false
 	if len(c.Up.Nodes) > 0 && tr[pid] {
 		evid.Class("C13.prediction_is_interior_node")
